@@ -22,5 +22,6 @@ Task: produce {n} different, realistic source changes (the kind of slip a mainta
 For each change k = 1..{n} deliver, under {wt}_out/k/:
  * patch.diff — `git diff` of just that change against the clean worktree (revert to clean between changes: `git checkout -- .`);
  * a demonstration (demo.c, or demo.sh driving the built tools) that FAILS (non-zero exit) with the change and PASSES (exit 0) without it, with the exact build/run command in a comment at the top (link against the in-tree libs, e.g. `gcc -I include -I . demo.c .libs/libsquashfs.a libutil.a libcompat.a -lz -llzma -lzstd -llz4 -lbz2 -lpthread -o demo`; fault injection via LD_PRELOAD shims or small stub objects is fine);
+ * run_demo.sh — a self-contained script that, run as `sh run_demo.sh` from the top of the worktree (after `make`), builds (if needed) and runs the demonstration and exits with its status (0 = property holds, non-zero = violated); it must not depend on files outside the worktree and this output directory;
  * notes.txt — which clause of the property is broken, what specific input/schedule/fault/sequence is needed for it to manifest, and confirmation (command + result) that `make check` still passes 89/89 with the change applied.
 Verify all of this yourself before finishing: with the patch → builds, 89/89 tests pass, demo fails; without → demo passes. Leave the worktree clean (`git checkout -- .`) at the end. Your final message: a short summary of the changes (file, function, what breaks, what is needed to trigger).""")
